@@ -66,7 +66,8 @@ func (p QueryProof) Verify(key []byte, expectedRootHash hashing.Digest) (valid b
 	}
 	recomputed, err := ops.Pop().Interpret(ops, ctx)
 	if err != nil {
-		panic(err)
+		// the audit path lacks a position the verifier needs: invalid proof
+		return false
 	}
 
 	return bytes.Equal(key, p.Key) && bytes.Equal(recomputed, expectedRootHash)
